@@ -517,6 +517,7 @@ pub fn run_case(env: &Env, c: &Case, scope: Scope) -> CaseResult {
     let set_ids = if env.root { c.ids } else { None };
     let mut run_ids = set_ids.unwrap_or(own);
     rep.class_if(set_ids.is_some(), "runs-as-other-uid-gid");
+    rep.class_if(set_ids.is_some() && c.egid.is_some(), "effective-ids-differ-from-real-ids");
     rep.class_if(run_ids.0 != run_ids.1, "uid-differs-from-gid");
     let mut fails: Vec<Failure> = Vec::new();
     let mut done = [false; 6];
@@ -540,10 +541,10 @@ pub fn run_case(env: &Env, c: &Case, scope: Scope) -> CaseResult {
             }
             rep.class("relocation-slots-inspected");
         }
-        let mut launched = launch::run(&path, &argv, &envp, &stdin, Duration::from_secs(20), set_ids);
+        let mut launched = launch::run(&path, &argv, &envp, &stdin, Duration::from_secs(20), set_ids, if set_ids.is_some() { c.egid } else { None });
         if launched.is_err() && set_ids.is_some() {
             // e.g. an id that is not mapped in this user namespace: run it with the inherited ids instead
-            launched = launch::run(&path, &argv, &envp, &stdin, Duration::from_secs(20), None);
+            launched = launch::run(&path, &argv, &envp, &stdin, Duration::from_secs(20), None, None);
             run_ids = own;
         }
         let o = match launched {
@@ -654,7 +655,7 @@ pub fn run(ctx: &Ctx) {
     );
     // changing the probe's ids needs root and a probe that other users may execute: try once
     let is_root = unsafe { libc::geteuid() } == 0
-        && matches!(launch::run(&probe_path(&root, 3), &[b"probe-env".to_vec()], &[], &[], Duration::from_secs(20), Some((4242, 2424))), Ok(o) if o.exit == Some(0));
+        && matches!(launch::run(&probe_path(&root, 3), &[b"probe-env".to_vec()], &[], &[], Duration::from_secs(20), Some((4242, 2424)), Some(777)), Ok(o) if o.exit == Some(0));
     ctx.extra("probe_ids", serde_json::json!(if is_root { "driver is root: 3 cases in 4 run the probe under generated uid/gid (fork+setgid+setuid+execve)" } else { "driver ids inherited (posix_spawn only)" }));
 
     // focused lookups first: what they report, the full sub-check does not report again
